@@ -37,8 +37,9 @@ type histState struct {
 	run     *caseRun
 
 	replacements, lookups, mixedLookups, flips int
-	lookupAfterShrink                         bool
-	lastSize                                  int
+	reweights                                  int
+	lookupAfterShrink                          bool
+	lastSize                                   int
 }
 
 func (s *histState) desc() string {
@@ -81,6 +82,32 @@ func (s *histState) update(rt *rapid.T) {
 	s.cur, s.members = hosts, members
 	s.replacements++
 	s.log = append(s.log, fmt.Sprintf("UpdateHosts v%d [%s]", s.version, strings.TrimSpace(sb.String())))
+}
+
+// reweight: the set is replaced by one with the SAME endpoints in the same order (same address, host name, metadata) and
+// other weights - what a registry pushes when only a weight changed. The new host objects are the members from now on.
+func (s *histState) reweight(rt *rapid.T) {
+	if len(s.cur) == 0 {
+		rt.Skip("no hosts to re-weight")
+	}
+	hosts := make([]types.Host, len(s.cur))
+	members := map[types.Host]int{}
+	var sb strings.Builder
+	for i, old := range s.cur {
+		w := uint32(rapid.IntRange(1, 128).Draw(rt, "w"))
+		meta := map[string]string{}
+		for k, v := range old.Metadata() {
+			meta[k] = v
+		}
+		hosts[i] = lb.NewHost(s.info, old.AddressString(), w, meta)
+		members[hosts[i]] = i
+		fmt.Fprintf(&sb, "%s:w%d ", old.AddressString(), w)
+	}
+	s.clu.UpdateHosts(cluster.NewHostSet(hosts))
+	s.cur, s.members = hosts, members
+	s.replacements++
+	s.reweights++
+	s.log = append(s.log, fmt.Sprintf("UpdateHosts (same endpoints as v%d, new weights) [%s]", s.version, strings.TrimSpace(sb.String())))
 }
 
 func (s *histState) flip(rt *rapid.T) {
@@ -185,11 +212,12 @@ func TestPropHistory(t *testing.T) {
 			s.healthy[a] = true
 		}
 		rt.Repeat(map[string]func(*rapid.T){
-			"update":  s.update,
-			"flip":    s.flip,
-			"flip2":   s.flip,
-			"lookup":  s.lookup,
-			"lookup2": s.lookup,
+			"update":   s.update,
+			"reweight": s.reweight,
+			"flip":     s.flip,
+			"flip2":    s.flip,
+			"lookup":   s.lookup,
+			"lookup2":  s.lookup,
 			"": func(rt *rapid.T) {
 				if f := s.sameSet(s.clu.Snapshot().HostSet(), sigPrefix(s.lbType, false)); f != nil {
 					s.run.report(rt, f, s.desc, nil)
@@ -197,6 +225,9 @@ func TestPropHistory(t *testing.T) {
 			},
 		})
 		classes := []string{"lb:" + s.lbType}
+		if s.reweights >= 1 {
+			classes = append(classes, "replacement-with-the-same-endpoints-and-new-weights")
+		}
 		if s.replacements >= 2 {
 			classes = append(classes, "replacements>=2")
 		}
